@@ -24,6 +24,20 @@ pub fn gen_base(rng: &mut Rng) -> Scenario {
         }
     };
     let mut sc = Scenario::new(d.bytes);
+    if rng.chance(1, 6) {
+        // legacy multi-byte / single-byte encodings: the text decoder holds lead bytes across
+        // write boundaries and handlers see transcoded text
+        let label = loop {
+            let l = rng.pick(wl::ENCODING_LABELS);
+            if !l.eq_ignore_ascii_case("iso-2022-jp") {
+                break l;
+            }
+        };
+        let long_text = rng.chance(1, 4);
+        let d = wl::enc_doc(rng, label, &wl::EncOpts { long_text, meta: false, bom_like: false });
+        sc = Scenario::new(d.bytes);
+        sc.encoding = label.to_string();
+    }
     sc.strict = rng.chance(1, 3);
     let observers_only = rng.bool();
     sc.handlers = if observers_only { wl::observers(rng) } else { wl::mutators(rng, false) };
@@ -107,13 +121,14 @@ impl Property for C11 {
         }
     }
     fn rule(&self) -> &'static str {
-        "one run = one generated (document incl. buffer-growing tails, handler set, schedule, preallocation, 0-2 appending bail-out handlers); a fault-free pre-run discovers the fault points; then, for each of the four graceful-flag combinations drawn per fault, one case per handler invocation index 1..N (Err before/after the script) and one case per limiter charge (limit = usage after that charge - 1), up to the caps 40/120 and 30/100 (seeded sample beyond); in half of the runs additionally 3/8 cases in which the only mutation is one inserting handler (before/after/prepend/append/start-tag/end-tag/text/comment/document-end) whose *streaming* content handler returns Err after writing its pieces, i.e. a failure during token serialisation (oracle: sink minus the inserted marker == received input); the sink content at the error return is compared with prefix-of-fault-free-output ++ appends ++ raw remainder; non-trivial = a fault fired; distinct by scenario fingerprint"
+        "one run = one generated (document incl. buffer-growing tails and, 1 in 6, a legacy-encoded text-heavy document in one of 35 single/multi-byte encodings, handler set, schedule, preallocation, 0-2 appending bail-out handlers); a fault-free pre-run discovers the fault points; then, for each of the four graceful-flag combinations drawn per fault, one case per handler invocation index 1..N (Err before/after the script) and one case per limiter charge (limit = usage after that charge - 1), up to the caps 40/120 and 30/100 (seeded sample beyond); in half of the runs additionally 3/8 cases in which the only mutation is one inserting handler (before/after/prepend/append/start-tag/end-tag/text/comment/document-end) whose *streaming* content handler returns Err after writing its pieces, i.e. a failure during token serialisation (oracle: sink minus the inserted marker == received input); the sink content at the error return is compared with prefix-of-fault-free-output ++ appends ++ raw remainder, where for memory faults the split (input offset, sink length) must be one of the clean states the dispatcher of the fault-free run went through (position hook); non-trivial = a fault fired; distinct by scenario fingerprint"
     }
     fn assumptions(&self) -> Vec<&'static str> {
         vec![
             "the fault-free run of the same scenario and schedule defines the normally rewritten output and the token boundaries",
             "documented exceptions are applied only after the strict clause failed: content being removed by a handler at that moment; a text handler failing on a later chunk of an already partly emitted text node",
-            "observer-only scenarios over valid UTF-8 must satisfy the exact form: sink == received bytes (plus appends)",
+            "observer-only scenarios over canonical input (decode/encode round trip is the identity) must satisfy the exact form: sink == received bytes (plus appends)",
+            "clean states = every position of the dispatcher's not-yet-emitted mark paired with the sink length at that moment, recorded in the fault-free run of the same scenario and schedule",
         ]
     }
     fn exhaustive_note(&self) -> Option<&'static str> {
@@ -140,7 +155,7 @@ impl Property for C11 {
             }
         }
         // streaming content handlers that fail *while the token is being serialised*
-        if std::str::from_utf8(&base.doc).is_ok() && rng.chance(1, 2) {
+        if is_canonical(enc_of(&base.encoding), &base.doc) && rng.chance(1, 2) {
             for _ in 0..if tier == Tier::Quick { 3 } else { 8 } {
                 let mut sc = base.clone();
                 sc.handlers.retain(HandlerSpec::is_observer);
@@ -264,7 +279,7 @@ impl Property for C11 {
             return Ok(stream_fault_conservation(sc, &p_and_r, received, st));
         }
         let observers_only = !sc.has_mutators();
-        let canonical = sc.encoding == "utf-8" && std::str::from_utf8(&sc.doc).is_ok();
+        let canonical = is_canonical(enc_of(&sc.encoding), &sc.doc);
         // exact expectation for handler faults: the failing token's start and the sink length there
         let pts = handler_points(&b);
         let injected_inv = h.evs.iter().find_map(|e| if let Ev::Injected { inv, .. } = e { Some(*inv) } else { None });
@@ -279,8 +294,16 @@ impl Property for C11 {
                             st.bump("c11.excepted.later_text_chunk");
                             return Ok(Ok(()));
                         }
-                        if pt.3 && decoder_held_bytes(&b, inv, sc) {
-                            return Ok(Err(Fail::known("C11.conservation", detail, "decoder_held_bytes_lost")));
+                        if pt.3 && p_and_r.len() < received.len() && received.len() - p_and_r.len() <= 3 {
+                            let d = received.len() - p_and_r.len();
+                            let x = first_diff(&p_and_r, received);
+                            // the lost run starts the failing chunk's range (end of input inside a
+                            // character), ends right before it (the previous chunk's range covers
+                            // the held bytes) or straddles its start (held over several writes)
+                            let at_chunk_start = pt.1.is_some_and(|l| x <= l.0 && l.0 <= x + d);
+                            if at_chunk_start && p_and_r[..x] == received[..x] && p_and_r[x..] == received[x + d..] && held_prefix(enc_of(&sc.encoding), &sc.doc[x..x + d]) {
+                                return Ok(Err(Fail::known("C11.conservation", detail, "decoder_held_bytes_lost")));
+                            }
                         }
                     }
                 }
@@ -321,7 +344,9 @@ impl Property for C11 {
                         st.bump("c11.excepted.later_text_chunk");
                         return Ok(Ok(()));
                     }
-                    if is_text && decoder_held_bytes(&b, inv, sc) && cands.iter().any(|&(i, a)| a == l && i > s && i <= s + 3) {
+                    // every lost byte s..i belongs to the incomplete sequence that ends at i
+                    let enc = enc_of(&sc.encoding);
+                    if is_text && cands.iter().any(|&(i, a)| a == l && i > s && i <= s + 3 && (i - s..=3).any(|k| k <= i && held_prefix(enc, &sc.doc[i - k..i]))) {
                         return Ok(Err(Fail::known(
                             "C11.conservation",
                             format!("text handler #{inv} failed on the chunk at input offset {s}: bytes {s}..{} held by the decoder are missing from the sink", cands[0].0),
@@ -352,16 +377,21 @@ impl Property for C11 {
             st.bump("c11.conservation_docend");
             return Ok(Ok(()));
         }
-        // memory faults with mutators: structural check + monotone consistency with known points
-        let ok = cands.iter().any(|&(i, a)| {
-            let lo = pts.iter().filter_map(|p| p.1.map(|l| (l.0, p.2))).filter(|&(s, _)| s < i).map(|(_, l)| l).max().unwrap_or(0);
-            let hi = pts.iter().filter_map(|p| p.1.map(|l| (l.0, p.2))).filter(|&(s, _)| s > i).map(|(_, l)| l).min().unwrap_or(b.out.len());
-            lo <= a && a <= hi.max(lo)
-        });
+        // memory faults with mutators: the split must be a *clean state* of the normal run, i.e. a
+        // pair (input offset up to which everything is in the sink, sink length) that the
+        // dispatcher really went through (position hook); anything else loses or duplicates bytes
+        let bp = driver::run_opts(&ff, &driver::RunOpts { record_charges: false, light: false, record_positions: true }).map_err(HarnessError)?;
+        let mut clean: std::collections::HashSet<(usize, usize)> = bp.clean.iter().copied().collect();
+        clean.insert((0, 0));
+        let ok = cands.iter().any(|c| clean.contains(c));
         if !ok && !excepted_removal {
-            return Ok(Err(Fail::new("C11.conservation", format!("split candidates {cands:?} are inconsistent with the token boundaries of the normal run"))));
+            let near: Vec<(usize, usize)> = bp.clean.iter().copied().filter(|&(i, _)| cands.iter().any(|&(ci, _)| ci.abs_diff(i) <= 8)).take(6).collect();
+            return Ok(Err(Fail::new(
+                "C11.conservation",
+                format!("split candidates {cands:?} (input offset, sink length) match no clean state of the normal run (nearby clean states {near:?}); sink={} normal={}", show(&p_and_r), show(&b.out)),
+            )));
         }
-        st.bump("c11.conservation_structural");
+        st.bump("c11.conservation_clean_state");
         Ok(Ok(()))
     }
 }
@@ -371,7 +401,7 @@ pub const STREAM_MARK: &str = "\u{2}sf\u{2}";
 /// One inserting handler whose streamed content fails after having been written: the only
 /// mutation of the scenario, so the sink minus the marker must be the received input.
 fn stream_fault_handler(rng: &mut Rng) -> HandlerSpec {
-    let c = Content { s: STREAM_MARK.into(), html: true, stream: rng.range(1, 3) as u8, fail_stream: true };
+    let c = Content { s: STREAM_MARK.into(), html: true, stream: rng.range(1, 3) as u8, fail_stream: true, utf8_chunks: 0 };
     let sel: String = rng.pick(wl::OBS_SELECTORS).into();
     match rng.below(12) {
         0 => HandlerSpec::Element { sel, ops: vec![ElOp::Before(c)] },
@@ -404,7 +434,7 @@ fn strip_marker(v: &[u8]) -> Vec<u8> {
 
 /// Conservation for a failing streaming handler (insert-only): sink minus marker == received.
 fn stream_fault_conservation(sc: &Scenario, p_and_r: &[u8], received: &[u8], st: &mut Stats) -> Result<(), Fail> {
-    if !(sc.encoding == "utf-8" && std::str::from_utf8(&sc.doc).is_ok()) {
+    if !is_canonical(enc_of(&sc.encoding), &sc.doc) {
         // text is transcoded lossily: exact conservation is stated for canonical input only
         return Ok(());
     }
@@ -425,7 +455,10 @@ fn stream_fault_conservation(sc: &Scenario, p_and_r: &[u8], received: &[u8], st:
             }
             if got[..xe] == received[..xe] && got[xe..] == received[xe - d..] {
                 let toks = crate::tokens::capture(&sc.doc, &sc.encoding, false, &sc.cuts, crate::tokens::CAP_ALL);
-                if toks.toks.iter().any(|t| t.loc().1 == xe && (t.loc().0 == xe - d || (t.is_text() && t.loc().0 < xe - d && sc.cuts.contains(&(xe - d))))) {
+                let enc = enc_of(&sc.encoding);
+                // a text chunk's range may extend over bytes the decoder still holds (not emitted)
+                let text_with_held_tail = |t: &crate::tokens::Tok| t.is_text() && t.loc().0 <= xe - d && t.loc().1 > xe && t.loc().1 <= xe + 3 && held_prefix(enc, &sc.doc[xe..t.loc().1]);
+                if toks.toks.iter().any(|t| (t.loc().1 == xe && (t.loc().0 == xe - d || (t.is_text() && t.loc().0 < xe - d && sc.cuts.contains(&(xe - d))))) || text_with_held_tail(t)) {
                     return Err(Fail::known("C11.conservation", format!("{detail}; token at {}..{} emitted, then re-flushed raw", xe - d, xe), "streaming_handler_error_after_token_emitted"));
                 }
             }
@@ -436,7 +469,7 @@ fn stream_fault_conservation(sc: &Scenario, p_and_r: &[u8], received: &[u8], st:
     if got.len() < received.len() && received.len() - got.len() <= 3 && sc.handlers.iter().any(|h| matches!(h, HandlerSpec::Text { .. } if !h.is_observer())) {
         let d = received.len() - got.len();
         let x = first_diff(&got, received);
-        if got[..x] == received[..x] && got[x..] == received[x + d..] && sc.cuts.contains(&(x + d)) && (sc.doc[x + d] & 0xC0) == 0x80 && sc.doc[x] >= 0xC0 {
+        if got[..x] == received[..x] && got[x..] == received[x + d..] && held_prefix(enc_of(&sc.encoding), &sc.doc[x..x + d]) {
             return Err(Fail::known("C11.conservation", format!("{detail}; bytes {x}..{} were held by the text decoder", x + d), "decoder_held_bytes_lost"));
         }
     }
@@ -471,12 +504,30 @@ fn text_chunk_not_first_in_write(b: &History, inv: usize) -> bool {
     false
 }
 
-/// Known-finding classifier: the failing text chunk belongs to a node whose previous chunk ended
-/// inside a multi-byte character (bytes held by the streaming decoder across a write boundary).
-fn decoder_held_bytes(b: &History, inv: usize, sc: &Scenario) -> bool {
-    let Some(Ev::Handler { unit: Unit::Text { loc, .. }, .. }) = b.evs.iter().find(|e| matches!(e, Ev::Handler { inv: i, .. } if *i == inv)) else {
+/// `c` splits a multi-byte character of `doc` (a canonical document in `enc`): the bytes before
+/// `c` end with an incomplete sequence.
+fn inside_character(enc: &'static encoding_rs::Encoding, doc: &[u8], c: usize) -> bool {
+    if enc == encoding_rs::UTF_8 {
+        return (doc[c] & 0xC0) == 0x80;
+    }
+    let from = c.saturating_sub(64);
+    // find a character boundary to start from: bytes < 0x30 are never trail bytes (gb18030's
+    // four-byte form uses 0x30..=0x39 as second and fourth byte)
+    let start = (from..c).rev().find(|&i| doc[i] < 0x30).map(|i| i + 1).unwrap_or(from);
+    !is_canonical(enc, &doc[start..c])
+}
+
+/// Known-finding classifier (KF-C11-2): `bytes` (1 to 3 of them) are the head of a multi-byte
+/// character and nothing else: a streaming decoder that is fed them consumes them, reports no
+/// error and produces no output. Such bytes live inside the text decoder, belong to an already
+/// consumed lexeme, and are therefore not part of the raw flush when the handler fails on the
+/// chunk that completes (or, at the end of input, replaces) the character.
+fn held_prefix(enc: &'static encoding_rs::Encoding, bytes: &[u8]) -> bool {
+    if bytes.is_empty() || bytes.len() > 3 || bytes[0] < 0x80 {
         return false;
-    };
-    // a write boundary strictly inside a multi-byte UTF-8 character shortly before the chunk
-    sc.cuts.iter().any(|&c| c > 0 && c < sc.doc.len() && c <= loc.0 + 4 && c + 4 >= loc.0 && (sc.doc[c] & 0xC0) == 0x80 && sc.doc[c - 1] >= 0x80)
+    }
+    let mut dec = enc.new_decoder_without_bom_handling();
+    let mut out = String::with_capacity(16);
+    let (_, read, had_errors) = dec.decode_to_string(bytes, &mut out, false);
+    read == bytes.len() && !had_errors && out.is_empty()
 }
